@@ -436,6 +436,8 @@ def _sel(P, typ, prefix, idx, seq):
         return z3.Select(z3.Array(prefix, INT, BOOL), idx)
     if k == 'none':
         return None
+    if k == 'frac':
+        return z3.Select(z3.Array(prefix, INT, z3.RealSort()), idx)
     if k == 'str':
         return SymStr(z3.Select(z3.Array(prefix, INT, INT), idx))
     if k == 'opaque' and typ[1] == 'key':
@@ -1178,6 +1180,9 @@ def _entry_sel(cz, typ, prefix, i, depth):
         return _ev(m, z3.Select(z3.Array(prefix, INT, BOOL), i))
     if k == 'none':
         return None
+    if k == 'frac':
+        q = m.eval(z3.Select(z3.Array(prefix, INT, z3.RealSort()), i), model_completion=True)
+        return {'$frac': [q.numerator_as_long(), q.denominator_as_long()]}
     if k == 'str':
         return code_str(_ev(m, z3.Select(z3.Array(prefix, INT, INT), i)))
     if k == 'opaque' and typ[1] == 'key':
